@@ -180,8 +180,15 @@ def step (d : DSt) (w : List String) : DSt × String :=
         else
           let partialPath := peaks hf (d.hashes.take i)
           match rootFromRightWitness hf i partialPath wit with
-          | none => (d, "w=" ++ hexList wit ++ " root=loop")
+          | none => (d, "w=" ++ hexList wit ++ " root=-")
           | some r => (d, "w=" ++ hexList wit ++ " root=" ++ Hex.encode r)
+  | ["rwraw", i, aps, rws] =>
+    match i.toNat?, parseHexList aps, parseHexList rws with
+    | some i, some ap, some rw =>
+      match rootFromRightWitness hf i ap rw with
+      | none => (d, "-")
+      | some r => (d, Hex.encode r)
+    | _, _, _ => bad
   | ["specpath", p] =>
     match p.toNat? with
     | none => bad
